@@ -280,12 +280,21 @@ func (r *Replica) initChain() (err error) {
 			err = &PanicError{Where: "InitChain", Value: fmt.Sprint(p), Stack: string(debug.Stack())}
 		}
 	}()
+	r.abciMu.Lock()
+	defer r.abciMu.Unlock()
+	return r.initChainLocked()
+}
+
+func (r *Replica) initChainLocked() (err error) {
+	defer func() {
+		if p := recover(); p != nil {
+			err = &PanicError{Where: "InitChain", Value: fmt.Sprint(p), Stack: string(debug.Stack())}
+		}
+	}()
 	var vals []types.ValidatorUpdate
 	for _, v := range r.G.Cmt.Validators {
 		vals = append(vals, types.UpdateValidator(v.PubKey.Bytes(), v.Power, ""))
 	}
-	r.abciMu.Lock()
-	defer r.abciMu.Unlock()
 	r.Mux.InitChain(types.RequestInitChain{
 		Time:            r.G.Doc.Time,
 		ChainId:         r.G.Cmt.ChainID,
@@ -350,6 +359,10 @@ func (r *Replica) Restart(newCfg *ReplicaConfig) error {
 		return err
 	}
 	r.Restarts++
+	if r.Height == 0 {
+		// Nothing was committed yet: like CometBFT's handshake, InitChain has to run again.
+		return r.initChainLocked()
+	}
 	info := r.Mux.Info(types.RequestInfo{})
 	if r.Height > 0 && info.LastBlockHeight != r.G.Doc.Height+r.Height-1 {
 		return fmt.Errorf("Restart: reloaded height %d, expected %d", info.LastBlockHeight, r.G.Doc.Height+r.Height-1)
